@@ -88,6 +88,11 @@ class TransformerRun(object):
                 if u != 'EMPTY':
                     return u
             return 'EMPTY'
+        if isinstance(e, ast.IfExp):
+            v = self.test(e.test)
+            if isinstance(v, bool):
+                return self.unit_of(e.body if v else e.orelse)
+            return None
         return None
 
     def test(self, t):
